@@ -121,8 +121,11 @@ def canon_exc_old(ex):
     return ["other", "%s: %s" % (type(ex).__name__, msg)]
 
 
+CSC = [1.0]
+
+
 def canon_polyline(pl):
-    return {"vertices": [[float(c) for c in p] for p in pl.vertices], "edges": [[to_int(a), to_int(b)] for a, b in pl.edges]}
+    return {"vertices": [[float(c) / CSC[0] for c in p] for p in pl.vertices], "edges": [[to_int(a), to_int(b)] for a, b in pl.edges]}
 
 
 def pre_step(M, P, mesh, st):
@@ -158,9 +161,18 @@ def pre_step(M, P, mesh, st):
 def run_case(case):
     import mouette as M
     from mouette.processing import paths as P
-    mesh = build(case["build"])
+    # scale class: the coordinates (and the vertices moved later) are multiplied by 2^cexp, exactly; the answers do
+    # not depend on the unit of length, and the coordinates are reported back in the unscaled unit
+    csc = 2.0 ** case.get("cexp", 0)
+    CSC[0] = csc
+    bld = case["build"]
+    if csc != 1.0 and bld.get("V"):
+        bld = dict(bld, V=[[c * csc for c in p] for p in bld["V"]])
+    mesh = build(bld)
     pre_errors = []
     for st in case.get("pre") or []:
+        if csc != 1.0 and st["op"] == "move":
+            st = dict(st, V=[[c * csc for c in p] for p in st["V"]])
         try:
             signal.alarm(QUERY_TIMEOUT)
             pre_step(M, P, mesh, st)
@@ -200,7 +212,7 @@ def run_case(case):
     border = None
     if type(mesh).__name__ == "SurfaceMesh":
         border = [to_int(x) for x in mesh.boundary_vertices]
-    coords = [[float(c) for c in p] for p in mesh.vertices]
+    coords = [[float(c) / csc for c in p] for p in mesh.vertices]
     mode = case["mode"]
     wnum = None
     if mode in ("one", "length"):
@@ -230,7 +242,7 @@ def run_case(case):
                 if k and e % k == 0:
                     wnum[e] = 0          # left unset: the attribute's default value 0.0
                 else:
-                    weights[e] = wnum[e] / den
+                    weights[e] = wnum[e] / den * (2.0 ** case.get("wexp", 0))
     obs = []
     amb_after = []
     queries = case.get("queries")
